@@ -60,7 +60,10 @@ def gen_sig(rng, idx):
         if rng.random() < 0.25:
             rng.shuffle(kinds)          # optionals before singles: legal for spox, not of ONNX's shape
         if rng.random() < 0.4:
-            kinds.append("VARIADIC")
+            if prefix == "i" and rng.random() < 0.4:
+                kinds.insert(rng.randrange(len(kinds) + 1), "VARIADIC")     # a variadic input need not be the last field
+            else:
+                kinds.append("VARIADIC")
         if not kinds and not allow_empty:
             kinds = ["SINGLE"]
         for i, k in enumerate(kinds):
